@@ -161,6 +161,7 @@ const preludeFixed = `(set-option :produce-models true)
 (define-fun slice-ok ((s Slice)) Bool (and (<= 0 (s-off s)) (<= 0 (s-len s)) (<= (s-len s) (s-cap s)) (=> (= (s-base s) 0) (and (= (s-cap s) 0) (= (s-off s) 0)))))
 (define-fun go-div ((a Int) (b Int)) Int (ite (>= a 0) (ite (> b 0) (div a b) (- (div a (- b)))) (ite (> b 0) (- (div (- a) b)) (div (- a) (- b)))))
 (define-fun go-mod ((a Int) (b Int)) Int (- a (* b (go-div a b))))
+(declare-fun no-trigger (Int) Bool)
 (declare-fun tag-kind (Int) Int)
 (define-fun any-wf ((x Any)) Bool (and (=> ((_ is any-str) x) (= (tag-kind (a-stag x)) 1)) (=> ((_ is any-int) x) (= (tag-kind (a-itag x)) 2)) (=> ((_ is any-bool) x) (= (tag-kind (a-btag x)) 3)) (=> ((_ is any-ref) x) (= (tag-kind (a-rtag x)) 4)) (=> ((_ is any-slice) x) (= (tag-kind (a-sltag x)) 5)) (=> ((_ is any-opq) x) (= (tag-kind (a-otag x)) 6))))
 (declare-fun str-itoa (Int) String)
